@@ -919,7 +919,8 @@ SCOPE = (
     "parameter name (key, link_attribute, typical_weight, node lists, sources/targets, n_bins, order, "
     "direction, geometry_corrected, ...; node arguments a,b,i are looped over all nodes). Tolerances: "
     "1e-9 relative for float64 measures (atol 1e-9*max|value|); 1e-7 LU/inverse/pagerank/dense eigen; "
-    "1e-6 ARPACK eigenvector centralities (connected undirected only); 1e-5 for methods defined by "
+    "1e-4 ARPACK eigenvector centralities (tol 1e-8 in shift-invert mode; connected undirected inputs "
+    "with relative spectral gap >= 3e-3 only); 1e-5 for methods defined by "
     "the spatial/geo/resistive/grid classes (float32 distance kernels), 1e-4 for the float32 "
     "current-flow kernels; 1e-6 RecurrenceNetwork's own methods (float32 distances).")
 RULE = (
